@@ -2,6 +2,7 @@
 import os, random
 from vlib.flow import Check
 from vlib import core, cli
+from props import _stream
 
 META = {
     "level": "proof",
@@ -103,10 +104,13 @@ def run(tier, seed, replay=None):
                      "negative half: no KDF collision on the password pair; the cipher distinguishes the two keys on the ciphertext"]
     c.proofs()
     c.correspondence("kdf", ["kdf"])
+    # Props/C16_sinks.v: CTR is only read back by the right key if the writer below the cipher takes whole writes
+    _stream.step_sinks(c, "C16")
     rnd = random.Random(seed)
     cli.pna_path()
     cases, impl, orc = cli_cases(c, rnd, 90 if tier == "quick" else 2500)
     c.correspondence_py("kdf", cases, impl, orc)
     return c.finish("proof", ["Coq 8.16.1 kernel and VM", "ExtrOcamlBasic extraction + modelrun/driver.ml",
                               "harness/src/bin/kdf.rs, harness/src/refdec.rs (independent key recomputation, primitive crates)",
-                              "props/C16.py (CLI orchestration)"])
+                              "props/C16.py (CLI orchestration)",
+                              "harness/src/bin/stream.rs ops csw, ctrw, ctr_rt (toy cipher twin of Cbc.toy_E; lib/src/verif_hooks.rs stream wrappers)"])
